@@ -1,5 +1,6 @@
 CONSTANTS NS = 1
  NT = 0
  NF = 2
+ Fill = FALSE
 INIT InitGen
 NEXT EvalGen
